@@ -10,7 +10,7 @@ LEVEL = "exploration"
 RULE = ("inputs (<= 4 kB of UTF-8) come from (a) a generator DERIVED AT RUN TIME from the working tree's grammar.pest (every "
         "production, types ignored, identifiers biased toward names already used so that many inputs pass name resolution), (b) "
         "token-level mutation (delete / insert / duplicate / swap / replace by a grammar terminal, 1-4 edits) of the example "
-        "corpus and of well-typed generated programs, (c) near-miss TYPE PAIRS: a random type T (primitives, open and fixed-shape lists, maps, optionals, function types, classes, aliases; depth <= 3), a type one structural edit away from it, and a value of the second supplied where the first is wanted (declaration, argument, re-assignment, return, `or` fallback, field, element, map value, comparison, index), (d) an enumerated import matrix (form x target file x imported names x context, compiled next to helper modules), (e) the COMPLETE single-edit neighbourhood of two hand-written well-typed programs that use every construct (each token replaced by each of 70 words, each of 22 snippets inserted at each token boundary, each token deleted; 56 000 inputs, all of them in both tiers), (f) a composition matrix: 28 outer expression forms x 24 inner forms x 8 statement forms x 8 places (module, function, closure, method, constructor, closure in a method, if block, loop body), (g) an enumerated family of boundary shapes (deep nesting of every "
+        "corpus and of well-typed generated programs, (c) near-miss TYPE PAIRS: a random type T (primitives, open and fixed-shape lists, maps, optionals, function types, classes, aliases; depth <= 3), a type one structural edit away from it, and a value of the second supplied where the first is wanted (declaration, argument, re-assignment, return, `or` fallback, field, element, map value, comparison, index), (d) an enumerated import matrix (form x target file x imported names x context, compiled next to helper modules), (e) the COMPLETE single-edit neighbourhood of three hand-written well-typed programs that between them use every construct (values and operators; classes, closures and recursion; imports, exports and built-in methods): each token replaced by each of 70 words, each of 23 snippets inserted at each token boundary, each token deleted; 90 000 inputs, all of them in both tiers, (f) a composition matrix: 28 outer expression forms x 25 inner forms x 8 statement forms x 8 places (module, function, closure, method, constructor, closure in a method, if block, loop body), (g) 16 control / declaration statements (break, continue, return, import, class, type, export, modify, const, ?=, uses of self ...) inside every stack of up to three enclosing constructs out of {from, while, if, else, function, closure, method, constructor}, (h) an enumerated family of boundary shapes (deep nesting of every "
         "bracketing construct, long operator chains, huge literals, unterminated tokens, import of odd paths). Oracle: `mscript "
         "compile f.ms --quick` exits 0, or exits 1 with diagnostics; exit 101 / a signal / a reproducible watchdog hit is a "
         "violation. Non-trivial = the input gets past the parser (no syntax diagnostic); distinct by input text")
@@ -215,7 +215,7 @@ def matrix_inputs():
 OUTER = ["(%s)", "-%s", "!%s", "get %s", "typeof %s", "%s + 1", "1 + %s", "%s == v", "(%s) or 1", "o or %s", "v or %s", "(o or %s)", "%s is nil", "[%s]", "[%s, 1]",
          "map[str, int] {\"k\": %s}", "(%s)[0]", "lst[%s]", "(%s).n", "(%s).len()", "idf(%s)", "(%s)()", "(%s)(1)", "k.add(%s)", "%s && true", "true || %s",
          "fn() -> int { return %s }", "(fn() -> int { return %s })()"]
-INNER = ["true", "nil", "self", "1", "1.5", "\"s\"", "[1]", "map[str, int] {\"k\": 1}", "fn() { }", "fn() -> int { return 1 }", "fn(n: int) -> int { return n }", "v", "o", "k", "K",
+INNER = ["true", "nil", "self", "Self", "1", "1.5", "\"s\"", "[1]", "map[str, int] {\"k\": 1}", "fn() { }", "fn() -> int { return 1 }", "fn(n: int) -> int { return n }", "v", "o", "k", "K",
          "undeclared", "k.n", "self.n", "lst[0]", "idf(1)", "K()", "(o or 1)", "get o", "typeof v"]
 STMT = ["print %s", "r: int = %s", "r = %s", "return %s", "if %s {\n}", "k.n = %s", "lst[0] = %s", "assert %s"]
 COMP_PRE = ("class K {\n\tn: int\n\tconstructor(self) {\n\t\tself.n = 1\n\t}\n\tfn add(self, d: int) -> int {\n\t\treturn self.n + d\n\t}\n}\n"
@@ -239,6 +239,36 @@ def composition_inputs():
     return out
 
 
+# ---- statements in NESTED places: every control / declaration statement inside every stack of up to three enclosing constructs
+# (loops, branches, functions, closures, methods, constructors): what a statement may refer to (the loop of a break, the function
+# of a return, the module of an export) is found by walking the enclosing scopes, and every kind of frame must stop or pass that walk
+NEST_STMTS = ["break", "continue", "return", "return 1", "import lib", "import shown from lib", "class Xc {\n}", "type Tt int", "export xe: int = 1", "modify v = 2", "const cc = 1",
+              "assert true", "from 0 to 1 {\n}", "v ?= o", "print self", "self.n = 1"]
+NEST_WRAP = {"from": "from 0 to 2 {\n%s\n}", "while": "while v < 0 {\n%s\n}", "if": "if v == 1 {\n%s\n}", "else": "if v == 2 {\n} else {\n%s\n}",
+             "fn": "wf = fn() {\n%s\n}", "closure": "wc = fn() -> fn() {\n\tcv = 1\n\treturn fn() {\n%s\n\t}\n}", "method": "class Wm {\n\tn: int\n\tfn go(self) {\n%s\n\t}\n}",
+             "ctor": "class Wk {\n\tn: int\n\tconstructor(self) {\n\t\tself.n = 1\n%s\n\t}\n}"}
+
+
+def nesting_inputs():
+    import itertools
+    out = []
+
+    def indent(text, n):
+        return "\n".join("\t" * n + l for l in text.split("\n"))
+    for depth in (1, 2, 3):
+        for stack in itertools.product(NEST_WRAP, repeat=depth):
+            if len(set(k for k in stack if k in ("method", "ctor"))) < sum(1 for k in stack if k in ("method", "ctor")):
+                continue                    # the helper classes have fixed names: one of each per program
+            for st_ in NEST_STMTS:
+                text = st_
+                for k in reversed(stack):
+                    tmpl = NEST_WRAP[k]
+                    pad = 2 if k in ("closure", "method", "ctor") else 1
+                    text = tmpl % indent(text, pad)
+                out.append(("nest:%s" % ">".join(stack), COMP_PRE + text + "\n"))
+    return out
+
+
 def import_inputs():
     """(import form) x (target: existing module, the file itself, a sub-directory module, a file that does not parse, a missing
     file, a directory) x (names: exported / private / undeclared / a type / a class / twice) x (context: top level, function,
@@ -259,22 +289,25 @@ def import_inputs():
     return out
 
 
-# ---- the complete single-edit neighbourhood of two hand-written, well-typed programs that between them use every construct
+# ---- the complete single-edit neighbourhood of three hand-written, well-typed programs that between them use every construct
 # (aliases, constants, fixed-shape and open lists, maps, optionals, classes with Self, closures, recursion, loops, unpacking):
 # every token replaced by every word of a dictionary, every short snippet inserted at every token boundary, every token
 # deleted.  Random mutation reaches such an input with probability ~ 1 / (tokens x dictionary); this family reaches all.
-EDIT_WORDS = ["int", "float", "str", "bool", "I", "Txt", "P", "Self", "self", "nil", "true", "false", "1", "0", "1.5", "B1", "0b1", "\"s\"", "x", "o", "lst", "m", "fixed", "p", "g", "xs",
+EDIT_IDENTS = {"c16_seed_values.ms": ["I", "Txt", "x", "o", "lst", "m", "fixed", "s"], "c16_seed_classes.ms": ["P", "p", "g", "xs", "w", "mk", "apply", "c"],
+               "c16_seed_modules.ms": ["lib", "shown", "Num", "Pt", "words", "ages", "text", "acc", "maybe"]}
+EDIT_WORDS = ["int", "float", "str", "bool", "Self", "self", "nil", "true", "false", "1", "0", "1.5", "B1", "0b1", "\"s\"",
               "+", "-", "*", "/", "%", "==", "!=", "<", "&&", "||", "or", "is", "?=", "=", "+=", ".", "?", "!", "get", "typeof", "const", "modify", "export", "return", "break", "continue",
               "print", "assert", "if", "else", "while", "from", "fn", "class", "type", "import", "(", ")", "[", "]", "{", "}", ",", ":", "->", "..."]
-EDIT_SNIPPETS = [": int", "?", "-", "!", "get ", "typeof ", " or 1", " or \"abc\"", "[0]", "[1.5]", ".v", ".len()", "()", "(1)", " is nil", ": I", "...", "const ", "modify ", "export ", " + 1", " == nil"]
+EDIT_SNIPPETS = [": int", ": Self?", "?", "-", "!", "get ", "typeof ", " or 1", " or \"abc\"", "[0]", "[1.5]", ".v", ".len()", "()", "(1)", " is nil", ": I", "...", "const ", "modify ", "export ", " + 1", " == nil"]
 SEED_DIR = os.path.join(os.path.dirname(os.path.dirname(os.path.abspath(__file__))), "data")
 
 
 def neighbourhood_inputs(tier, seed):
     out = []
-    for fname in ("c16_seed_values.ms", "c16_seed_classes.ms"):
+    for fname in ("c16_seed_values.ms", "c16_seed_classes.ms", "c16_seed_modules.ms"):
         text = open(os.path.join(SEED_DIR, fname), encoding="utf-8").read()
         toks = TOK.findall(text)
+        words = EDIT_IDENTS[fname] + EDIT_WORDS
         tag = "edit:" + fname[9:-3]
         out.append((tag + ":unchanged", text))
         for i, t in enumerate(toks):
@@ -283,7 +316,7 @@ def neighbourhood_inputs(tier, seed):
                     out.append(("%s:insert" % tag, "".join(toks[:i]) + sn + "".join(toks[i:])))
                 continue
             out.append(("%s:delete" % tag, "".join(toks[:i] + toks[i + 1:])))
-            for w in EDIT_WORDS:
+            for w in words:
                 if w != t:
                     out.append(("%s:replace" % tag, "".join(toks[:i]) + w + "".join(toks[i + 1:])))
             for sn in EDIT_SNIPPETS:
@@ -298,6 +331,7 @@ def enumerated(tier, seed):
     cases += [{"family": n, "text": t} for n, t in typepair_matrix()]
     cases += [{"family": n, "text": t} for n, t in matrix_inputs()]
     cases += [{"family": n, "text": t} for n, t in composition_inputs()]
+    cases += [{"family": n, "text": t} for n, t in nesting_inputs()]
     return cases
 
 
